@@ -20,4 +20,4 @@ def run(chk):
                        'read(2) calls are observed through -Wl,--wrap=read (all library syscalls are inlined into the harness TU)']
     return chk.finish('fault_enumeration',
                       'formats {PBF zlib, PBF raw, XML, OPL, o5m} x scenarios {consumer stops after k in {0,1,2,3,5,8,all} reads with/without header() via close()/destructor; j-th Decompressor::read() throws for every j; Decompressor::close() throws; n-th PBF block corrupt (zlib data / protobuf), XML/OPL/o5m corrupt in the middle, header corrupt, input truncated} x pool {1,4} x input/osmdata queue sizes {2,3,20} x PBF pool parsing on/off x mock decompressor / memory / real file x seeded perturbation. distinct = (scenario configuration, interleaving signature)',
-                      required_counters=['scenario_stop', 'scenario_decomp-read', 'scenario_decomp-close', 'scenario_corrupt', 'early_stops', 'faults_reported', 'api_events', 'reads_on_reader_fd_logged', 'hook_events'])
+                      required_counters=['scenario_stop', 'scenario_decomp-read', 'scenario_decomp-close', 'scenario_corrupt', 'early_stops', 'readers_asked_for_no_entity_type', 'faults_reported', 'api_events', 'reads_on_reader_fd_logged', 'hook_events'])
